@@ -73,7 +73,18 @@ package proto
 // makes Row(i) panic-free for every i below Rows() (C06), and it must hold after every decode.
 
 //@ valid (c *ColArr): c != nil ==> c.Data != nil
-//@ spec func wfArr(c Val) Bool = (forall k in 1..len(c.Offsets) :: c.Offsets[k - 1] <= c.Offsets[k]) && (len(c.Offsets) > 0 ==> c.Offsets[len(c.Offsets) - 1] == c.Data.nrows) && (forall k in 0..len(c.Offsets) :: c.Offsets[k] <= maxRowsInBLock)
+//@ spec func monotone(o Val) Bool = (forall k in 1..len(o) :: o[k - 1] <= o[k]) && (forall k in 0..len(o) :: o[k] <= o[len(o) - 1])
+//@ spec func wfArr(c Val) Bool = monotone(c.Offsets) && (len(c.Offsets) > 0 ==> c.Offsets[len(c.Offsets) - 1] == c.Data.nrows) && c.Data.nrows <= maxRowsInBLock
+
+//@ -- checkOffsets accepts exactly the non-decreasing offset sequences (C06)
+//@ contract checkOffsets(offsets) (err) props(C06,C01)
+//@   ensures err == nil ==> monotone(offsets) {accepted-means-monotone}
+//@   ensures (forall k in 1..len(offsets) :: offsets[k - 1] <= offsets[k]) ==> err == nil {monotone-is-accepted}
+//@ loop 0 (prev, rangeindex)
+//@   invariant -1 <= rangeindex && rangeindex < len(offsets)
+//@   invariant (rangeindex == -1 ==> prev == 0) && (rangeindex >= 0 ==> prev == offsets[rangeindex])
+//@   invariant forall k in 1..rangeindex + 1 :: offsets[k - 1] <= offsets[k]
+//@   invariant forall k in 0..rangeindex + 1 :: offsets[k] <= prev
 
 //@ contract (c ColArr) Rows() (n) props(C01,C06,C16)
 //@   ensures n == len(c.Offsets)
